@@ -848,14 +848,10 @@ func ShareGoNames(r *run.Rand, a, b *GoFile, samePkg bool) []string {
 		ib.Name = ia.Name
 		shared = append(shared, "interface "+ia.Name)
 	}
-	var exported []*GoFunc
-	for _, fn := range a.Funcs() {
-		if fn.Name[0] >= 'A' && fn.Name[0] <= 'Z' {
-			exported = append(exported, fn)
-		}
-	}
-	if bf := b.Funcs(); len(exported) > 0 && len(bf) > 0 && (r.Chance(1, 2) || len(shared) == 0) {
-		fa, fb := exported[r.Intn(len(exported))], bf[r.Intn(len(bf))]
+	// a function both files declare; it is made exported (the flattened model keeps exported functions)
+	if af, bf := a.Funcs(), b.Funcs(); len(af) > 0 && len(bf) > 0 && (r.Chance(1, 2) || len(shared) == 0) {
+		fa, fb := af[r.Intn(len(af))], bf[r.Intn(len(bf))]
+		fa.Name = capitalize(fa.Name)
 		fb.Name = fa.Name
 		shared = append(shared, "func "+fa.Name)
 	}
